@@ -195,6 +195,15 @@ func (env *Env) eval(e ast.Expr) SV {
 		case "nil":
 			return SV{K: SGo, V: Val{ic("0"), ic("0"), ic("0"), ic("0")}, Ty: nil}
 		}
+		if env.site != nil && !strings.HasPrefix(n.Name, "arg") {
+			// in a site assertion a name denotes the variable's current value (a parameter may have
+			// been assigned to); old(name) gives the entry value
+			if env.st != env.old {
+				if v, ok := env.lookupLocal(n.Name); ok {
+					return v
+				}
+			}
+		}
 		if v, ok := env.names[n.Name]; ok {
 			return v
 		}
@@ -715,8 +724,14 @@ func (env *Env) callExpr(n *ast.CallExpr) SV {
 			sfail("callres needs a trace")
 		}
 		var last *CallSite
+		want := 0
+		if h := strings.LastIndex(name, "#"); h >= 0 {
+			if k, err := strconv.Atoi(name[h+1:]); err == nil {
+				want, name = k, name[:h]
+			}
+		}
 		for _, c := range x.trace.calls {
-			if calleeMatch(name, c.Callee) && c.Res != nil {
+			if calleeMatch(name, c.Callee) && c.Res != nil && (want == 0 || c.Ord == want) {
 				last = c
 			}
 		}
